@@ -21,6 +21,7 @@ from elementpath.helpers import split_function_test
 from elementpath.sequence_types import match_sequence_type, is_sequence_type_restriction
 from elementpath.xpath_context import XPathSchemaContext
 from .functions import XPathFunction
+from elementpath.helpers import OPTIONAL_COMMENTS
 
 
 _TRUE_KEY, _FALSE_KEY = ('xs:boolean', True), ('xs:boolean', False)
@@ -98,7 +99,7 @@ class XPathMap(XPathFunction):
     """
     symbol = 'map'
     label = 'map'
-    pattern = r'(?<!\$)\bmap(?=\s*(?:\(\:.*\:\))?\s*\{(?!\:))'
+    pattern = r'(?<!\$)\bmap(?=' + OPTIONAL_COMMENTS + r'\{(?!\:))'
     _map: Optional[ta.MapDictType] = None
     _values: list[ta.XPathTokenType]  # a 2nd list of tokens is needed for map's values
 
